@@ -24,7 +24,8 @@
 (***************************************************************************************************)
 EXTENDS TraceBase, BigField, U64
 CONSTANTS Strict, CheckArith,
-          CrossFresh   \* TRUE: compare RNG-derived nonces across the calls of one trace file (C13, C14)
+          CrossFresh,  \* TRUE: compare RNG-derived nonces across the calls of one trace file (C13, C14)
+          NoncesOnly   \* long proofs: only the nonces (read off the outputs) are examined
 
 T == INSTANCE Transcript
 P == INSTANCE BPS2 WITH FZero <- Zero21, FOne <- One21, FTwo <- Two21, Bug <- "none"
@@ -85,6 +86,29 @@ NC == [alpha |-> cfg.A.G, dL |-> [jj \in 1..K |-> cfg.Ls[jj].G], dR |-> [jj \in 
        rr |-> Zero21, ss |-> Zero21, dd |-> cfg.A1.G, eta |-> cfg.B.G]
 AsFn(p) == [s \in x.S |-> CASE s[1] = "H" -> p.H [] s[1] = "G" -> p.G[s[2]+1] [] s[1] = "Gi" -> p.Gi[s[2]+1] [] s[1] = "Hi" -> p.Hi[s[2]+1]]
 
+\* reductions of the 64-byte outputs of generators on the prover's transcript whose build saw at least `need`
+FillsAfterU(need) == UNION { { Reduce(rng[rid].fills[f].wide) : f \in {g \in 1..Len(rng[rid].fills) : rng[rid].fills[g].len = 64} } :
+                             rid \in {q \in DOMAIN rng : rng[q].tid = cfg.tid /\ need \subseteq rng[q].absAt} }
+StmtToks == {cfg.tok.H} \cup {cfg.tok.G[kk] : kk \in 1..cfg.t} \cup {cfg.tok.C[jj] : jj \in 1..cfg.m}
+AfterRound(jj) == StmtToks \cup {cfg.tok.A} \cup {cfg.tok.L[i] : i \in 1..jj} \cup {cfg.tok.R[i] : i \in 1..jj}
+\* long proofs (bits*aggregation beyond what the folding can be replayed for): only the nonces, read off the G_k-coordinates of
+\* A, every L_j / R_j, A1 and B - non-zero, pairwise distinct, seed-derived ones equal to the reference derivation at (label, j, k),
+\* RNG-derived ones each the reduction of an output of a generator built after the latest absorption preceding its use
+FlatLR(v) == [i \in 1..(K * cfg.t) |-> v[((i-1) \div cfg.t) + 1][((i-1) % cfg.t) + 1]]
+NoncesOk ==
+  LET all == NC.alpha \o NC.dd \o NC.eta \o FlatLR(NC.dL) \o FlatLR(NC.dR) IN
+  /\ cfg.A.other = 0 /\ cfg.A1.other = 0 /\ cfg.B.other = 0
+  /\ \A jj \in 1..K : cfg.Ls[jj].other = 0 /\ cfg.Rs[jj].other = 0
+  /\ \A a \in 1..Len(all) : all[a] # Zero21
+  /\ Cardinality({all[a] : a \in 1..Len(all)}) = Len(all)
+  /\ cfg.reference \/
+     IF cfg.seeded
+     THEN /\ NC.alpha = cfg.nref.alpha /\ NC.dd = cfg.nref.d /\ NC.eta = cfg.nref.eta /\ NC.dL = cfg.nref.dL /\ NC.dR = cfg.nref.dR
+     ELSE /\ LET last == FillsAfterU(AfterRound(K)) IN \A kk \in 1..cfg.t : NC.dd[kk] \in last /\ NC.eta[kk] \in last
+          /\ LET first == FillsAfterU(StmtToks) IN \A kk \in 1..cfg.t : NC.alpha[kk] \in first
+          /\ \A jj \in 1..K : LET fr == FillsAfterU(AfterRound(jj - 1)) IN
+                              \A kk \in 1..cfg.t : NC.dL[jj][kk] \in fr /\ NC.dR[jj][kk] \in fr
+
 PRetStart == /\ Is("PRet") /\ pc = "run"
              /\ IF CheckArith /\ cfg.arith
                 THEN /\ Len(Ch) = K + 3 /\ Pw(K) = cfg.nm
@@ -94,6 +118,7 @@ PRetStart == /\ Is("PRet") /\ pc = "run"
                               nc |-> NC]
                      /\ pc' = "ctx" /\ UNCHANGED l
                 ELSE /\ pc' = "idle" /\ l' = l + 1 /\ UNCHANGED x
+                     /\ (NoncesOnly /\ cfg.arith) => NoncesOk
                      /\ Strict => T!Matches(scripts[cfg.tid], T!ProverScript(cfg))
              /\ UNCHANGED <<scripts, abs, chal, rng, j, cfg, st, pre, out, seen>>
 MkCtx == /\ pc = "ctx"
@@ -131,11 +156,6 @@ PFin == /\ pc = "fin"
         /\ pc' = "prov" /\ UNCHANGED <<l, scripts, abs, chal, rng, j, cfg, x, st, pre, out, seen>>
 
 \* ---- nonce provenance (C13) -----------------------------------------------------------------------------
-\* reductions of the 64-byte outputs of generators on the prover's transcript whose build saw at least `need`
-FillsAfterU(need) == UNION { { Reduce(rng[rid].fills[f].wide) : f \in {g \in 1..Len(rng[rid].fills) : rng[rid].fills[g].len = 64} } :
-                             rid \in {q \in DOMAIN rng : rng[q].tid = cfg.tid /\ need \subseteq rng[q].absAt} }
-StmtToks == {cfg.tok.H} \cup {cfg.tok.G[kk] : kk \in 1..cfg.t} \cup {cfg.tok.C[jj] : jj \in 1..cfg.m}
-AfterRound(jj) == StmtToks \cup {cfg.tok.A} \cup {cfg.tok.L[i] : i \in 1..jj} \cup {cfg.tok.R[i] : i \in 1..jj}
 AllNonces == <<pre.rr, pre.ss>> \o x.nc.alpha \o x.nc.dd \o x.nc.eta
              \o [i \in 1..(K * cfg.t) |-> x.nc.dL[((i-1) \div cfg.t) + 1][((i-1) % cfg.t) + 1]]
              \o [i \in 1..(K * cfg.t) |-> x.nc.dR[((i-1) \div cfg.t) + 1][((i-1) % cfg.t) + 1]]
